@@ -200,14 +200,14 @@ type c08Recv struct {
 }
 
 func c08EncodeOne(res *vlib.Result, exprs []string, st c09State, pad bool, withTypes bool, private bool) {
-	c08EncodeNamed(res, nil, exprs, st, pad, withTypes, private)
+	c08EncodeNamed(res, nil, exprs, st, pad, withTypes, private, false)
 }
 
 // c08AttrNames: attribute names that resemble pieces of the wire layout (the
 // in-band secret marker, the type-name attributes) or are unusual.
-var c08AttrNames = []string{"ZKM", "ZKMode", "ZKM_", "ZKMZKM", "zkm", "ZK", "Z", "MyTypeX", "TargetTypes", "My", "_", "_a1", "A", strings.Repeat("LongName", 40)}
+var c08AttrNames = []string{"ServerTime", "ZKM", "ZKMode", "ZKM_", "ZKMZKM", "zkm", "ZK", "Z", "MyTypeX", "TargetTypes", "My", "_", "_a1", "A", strings.Repeat("LongName", 40)}
 
-func c08EncodeNamed(res *vlib.Result, attrNames []string, exprs []string, st c09State, pad bool, withTypes bool, private bool) {
+func c08EncodeNamed(res *vlib.Result, attrNames []string, exprs []string, st c09State, pad bool, withTypes bool, private bool, serverTime bool) {
 	ctx := context.Background()
 	res.Evals++
 	ad := classad.New()
@@ -244,6 +244,13 @@ func c08EncodeNamed(res *vlib.Result, attrNames []string, exprs []string, st c09
 	var cfg *message.PutClassAdConfig
 	if private {
 		cfg = &message.PutClassAdConfig{Options: message.PutClassAdIncludePrivate}
+	}
+	if serverTime {
+		// the sender adds a ServerTime attribute of its own (the ad may already hold one)
+		if cfg == nil {
+			cfg = &message.PutClassAdConfig{}
+		}
+		cfg.Options |= message.PutClassAdServerTime
 	}
 	if err := m.PutClassAdWithOptions(ctx, ad, cfg); err != nil {
 		res.Violate("C08/encode/put-error", "ad %v: %v", exprs, err)
@@ -332,7 +339,7 @@ func c08EncodeNamed(res *vlib.Result, attrNames []string, exprs []string, st c09
 				res.Violate(key(rk+"-attr-lost"), "ad %v: attribute %s missing at receiver %s", exprs, n, rk)
 				continue
 			}
-			if !w.ok {
+			if !w.ok || serverTime && strings.EqualFold(n, "ServerTime") {
 				continue
 			}
 			if g.Equal(w.ref) {
@@ -347,7 +354,7 @@ func c08EncodeNamed(res *vlib.Result, attrNames []string, exprs []string, st c09
 		}
 		extra := 0
 		for _, a := range got.GetAttributes() {
-			if _, ok := want[a]; !ok && a != "MyType" && a != "TargetType" {
+			if _, ok := want[a]; !ok && a != "MyType" && a != "TargetType" && !(serverTime && strings.EqualFold(a, "ServerTime")) {
 				extra++
 			}
 		}
@@ -432,7 +439,7 @@ func c08Extremes() []string {
 func C08Plan() *vlib.Plan {
 	p := &vlib.Plan{
 		Property: "C08", Level: "exploration",
-		Rule:   "E-ENUM. Decode side: every string of length <= L over the 17-symbol alphabet {0 1 9 - + . e E x p _ \" \\ a t T space} as the value text of one attribute, framed by the reference and read by the real GetClassAd; oracle = full parser (same structure, or same defined value) / independent old-style lone-string rule / must reject; plus ~3000 decorated numerals at and around 2^31, 2^32, 2^53, 2^63, 2^64, 2^127, 2^128, 10^17..10^22 and the float64 limits. Encode side: every expression of a bounded grammar (literals incl. integer/real extremes, strings with quotes/backslashes/controls/UTF-8, refs, unary, binary, ?:, strcat, lists, nested ads; depth <= D) in ads of 1-2 attributes, with/without type names, single- and multi-frame, 3 stream states, through GetClassAd / GetClassAdRaw+ParseOld / SkipClassAdRaw each followed by a sentinel; plus 14 attribute names that resemble wire-layout pieces (ZKM, ZKMode, zkm, MyTypeX, ...) x 6 values through the same three receivers; every non-padded ad is also read by the bounded receiver GetClassAdWithMaxSize(b) for every budget b from 1 to past the ad's size (refuse, or return the whole ad having consumed exactly its bytes). Non-trivial = text accepted by the parser (decode) / ad sent (encode).",
+		Rule:   "E-ENUM. Decode side: every string of length <= L over the 17-symbol alphabet {0 1 9 - + . e E x p _ \" \\ a t T space} as the value text of one attribute, framed by the reference and read by the real GetClassAd; oracle = full parser (same structure, or same defined value) / independent old-style lone-string rule / must reject; plus ~3000 decorated numerals at and around 2^31, 2^32, 2^53, 2^63, 2^64, 2^127, 2^128, 10^17..10^22 and the float64 limits. Encode side: every expression of a bounded grammar (literals incl. integer/real extremes, strings with quotes/backslashes/controls/UTF-8, refs, unary, binary, ?:, strcat, lists, nested ads; depth <= D) in ads of 1-2 attributes, with/without type names, single- and multi-frame, 3 stream states, through GetClassAd / GetClassAdRaw+ParseOld / SkipClassAdRaw each followed by a sentinel; plus 15 attribute names that resemble wire-layout pieces or sender-added attributes (ServerTime, ZKM, ZKMode, zkm, MyTypeX, ...) x 6 values x {without, with} the sender's ServerTime option through the same three receivers; every non-padded ad is also read by the bounded receiver GetClassAdWithMaxSize(b) for every budget b from 1 to past the ad's size (refuse, or return the whole ad having consumed exactly its bytes). Non-trivial = text accepted by the parser (decode) / ad sent (encode).",
 		Assume: []string{"reference = github.com/PelicanPlatform/classad ParseExpr (the 'full parser' of the statement)"},
 	}
 	p.Gen = func(tier string, yield func(vlib.Case)) {
@@ -497,8 +504,10 @@ func C08Plan() *vlib.Plan {
 				vals := []string{"3", `"ZKM"`, `"s"`, "true", "ZKM", "a + 1"}
 				for i, n := range c08AttrNames {
 					for j, v := range vals {
-						c08EncodeNamed(res, []string{n}, []string{v}, st, false, j%2 == 0, false)
-						c08EncodeNamed(res, []string{n, c08AttrNames[(i+1)%len(c08AttrNames)]}, []string{v, vals[(j+1)%len(vals)]}, st, false, j%2 == 1, i%3 == 0)
+						for _, sTime := range []bool{false, true} {
+							c08EncodeNamed(res, []string{n}, []string{v}, st, false, j%2 == 0, false, sTime)
+							c08EncodeNamed(res, []string{n, c08AttrNames[(i+1)%len(c08AttrNames)]}, []string{v, vals[(j+1)%len(vals)]}, st, false, j%2 == 1, i%3 == 0, sTime)
+						}
 					}
 				}
 				return res
